@@ -264,6 +264,26 @@ def check(ctx):
         ctx.inst('R6', inc, 'range-advance', whole, 'record -> (anchor id, distance), stored by id')
         ctx.inst('R6', inc, 'range-report-in-fresh-dict', whole and norm(n_.ast.targets[0]) == 'decoded_data', 'distances are stored in a dictionary created for this report')
         up = None
+    elif len(up) == 1 and isinstance(up[0][1].args[1], ast.Subscript) and norm(up[0][1].args[1].value) == 'data' and isinstance(up[0][1].args[1].slice, ast.Slice) and \
+            isinstance(up[0][1].args[1].slice.lower, ast.Name):
+        # records read in place by slicing: for o in range(0, len(data), 5): id, d = struct.unpack('<Bf', data[o:o + 5]); decoded[id] = d
+        n_, c_ = up[0]
+        keys = g.fact_keys_at(n_)
+        ctx.inst('R6', inc, 'range-length-check', fact_key('len(data) % 5 != 0', False) in keys and fact_key('pk_type == self.RANGE_STREAM_REPORT', True) in keys,
+                 'records are decoded only when the payload is a whole number of 5-byte records')
+        lp = [l for l in walk_own(inc.node) if isinstance(l, ast.For)]
+        lv = norm(lp[0].target) if len(lp) == 1 and isinstance(lp[0].target, ast.Name) else None
+        sl_ = c_.args[1].slice
+        ctx.inst('R6', inc, 'range-record', lv is not None and norm(sl_.lower) == lv and sl_.upper is not None and norm(sl_.upper).replace(' ', '') == '%s+5' % lv and sl_.step is None,
+                 'each record is the 5 bytes at the running offset')
+        it = lp[0].iter if len(lp) == 1 else None
+        step_ok = isinstance(it, ast.Call) and norm(it.func) == 'range' and len(it.args) == 3 and fold_in(inc, it.args[0]) == 0 and norm(it.args[1]) == 'len(data)' and fold_in(inc, it.args[2]) == 5
+        ctx.inst('R6', inc, 'range-count', bool(step_ok), 'one iteration per 5-byte record, from offset 0 to the end of the payload')
+        body = [norm(s_) for s_ in lp[0].body] if lp else []
+        ctx.inst('R6', inc, 'range-advance', lv is not None and body == ["anchor_id, distance = struct.unpack('<Bf', data[%s:%s + 5])" % (lv, lv), 'decoded_data[anchor_id] = distance'] and
+                 lv not in ('anchor_id', 'distance', 'data', 'decoded_data'), 'record -> (anchor id, distance), stored by id; body %s' % body)
+        fresh_dict_rule(ctx, inc, g)
+        up = None
     elif not up and len(g.find(lambda n: isinstance(n, ast.Call) and dotted(n.func) == 'struct.unpack_from' and len(n.args) == 3 and fold_in(inc, n.args[0]) == '<Bf')) == 1:
         # records read in place: for offset in range(0, len(data), 5): id, d = struct.unpack_from('<Bf', data, offset); decoded[id] = d
         n_, c_ = g.find(lambda n: isinstance(n, ast.Call) and dotted(n.func) == 'struct.unpack_from' and len(n.args) == 3 and fold_in(inc, n.args[0]) == '<Bf')[0]
@@ -338,6 +358,7 @@ def lh_angle_symbolic(la):
     """Symbolic result of _decode_lh_angle: (struct format, {key text: value text or list of texts}) with the unpacked fields written F0..Fn,
     whether they are addressed as raw[k] or through names bound by tuple unpacking."""
     env, fmt, out = {}, None, {}
+    lists_ = {}
 
     class S(ast.NodeTransformer):
         def visit_Subscript(self, n):
@@ -383,9 +404,26 @@ def lh_angle_symbolic(la):
                 l_ = lst(v_)
                 out[norm(k_)] = l_ if l_ is not None else norm(S().visit(_copy.deepcopy(v_)))
             continue
+        if isinstance(st, ast.Expr) and isinstance(st.value, ast.Call) and isinstance(st.value.func, ast.Attribute) and st.value.func.attr == 'append' and \
+                isinstance(st.value.func.value, ast.Name) and isinstance(lists_.get(st.value.func.value.id), list) and len(st.value.args) == 1:
+            lists_[st.value.func.value.id].append(norm(S().visit(_copy.deepcopy(st.value.args[0]))))
+            continue
         if not isinstance(st, ast.Assign) or len(st.targets) != 1:
             continue
         t, v = st.targets[0], st.value
+        if isinstance(t, ast.Name) and env.get(t.id) != '<record>' and not (isinstance(v, ast.Call) and dotted(v.func) == 'struct.unpack'):
+            # a local: a list under construction, or a field / expression of fields named for a while
+            l_ = lst(v)
+            if l_ is not None:
+                lists_[t.id] = l_
+                continue
+            sv = S().visit(_copy.deepcopy(v))
+            if isinstance(sv, ast.Name) and sv.id.startswith('F') and sv.id[1:].isdigit():
+                env[t.id] = sv.id
+                continue
+        if isinstance(t, ast.Subscript) and isinstance(t.value, ast.Name) and isinstance(v, ast.Name) and isinstance(lists_.get(v.id), list):
+            out[norm(t.slice)] = list(lists_[v.id])
+            continue
         if isinstance(v, ast.Call) and dotted(v.func) == 'struct.unpack' and len(v.args) == 2 and norm(v.args[1]) == la.params[1]:
             fmt = fold_in(la, v.args[0])
             if isinstance(t, ast.Name):
@@ -432,7 +470,20 @@ def trajectory_rules(ctx, rule='R4'):
     ctx.inst(rule, sg, 'type-nibbles', B_.is_input_field(tb, 0, 2, 'x') and B_.is_input_field(tb, 2, 2, 'y') and B_.is_input_field(tb, 4, 2, 'z') and B_.is_input_field(tb, 6, 2, 'w'),
              'element types: x<<0 | y<<2 | z<<4 | yaw<<6; bits %s' % B_.describe(tb, 8))
     ctx.inst(rule, sg, 'duration-ms', norm(st.get('duration_ms')) in ('int(self.duration * 1000.0)', 'int(self.duration * 1000)'), 'duration in ms as int')
-    seq = [norm(s.value) for s in sg.node.body if isinstance(s, ast.AugAssign) and norm(s.target) == 'data']
+    # what is appended to the segment, in order; an element packed on the spot (`for part in <encoded>: data += struct.pack('<h', part)`)
+    # is what _pack_element does and is written as that call
+    seq, env_ = [], {}
+    for s in sg.node.body:
+        if isinstance(s, ast.AugAssign) and norm(s.target) == 'data':
+            seq.append(norm(s.value))
+        elif isinstance(s, ast.Assign) and len(s.targets) == 1 and isinstance(s.targets[0], ast.Name):
+            env_[s.targets[0].id] = norm(s.value)
+        elif isinstance(s, ast.For) and isinstance(s.target, ast.Name) and not s.orelse and len(s.body) == 1 and isinstance(s.body[0], ast.AugAssign) and norm(s.body[0].target) == 'data' and \
+                norm(s.body[0].value) == "struct.pack('<h', %s)" % s.target.id:
+            it_ = norm(s.iter)
+            seq.append('self._pack_element(%s)' % env_.get(it_, it_))
+        elif isinstance(s, ast.Expr) and isinstance(s.value, ast.Call):
+            seq.append('<call %s>' % norm(s.value.func))
     want = ["struct.pack('<BH', element_types, duration_ms)", 'self._pack_element(self._encode_spatial_element(self.x))', 'self._pack_element(self._encode_spatial_element(self.y))',
             'self._pack_element(self._encode_spatial_element(self.z))', 'self._pack_element(self._encode_yaw_element(self.yaw))']
     ctx.inst(rule, sg, 'segment-layout', seq == want, 'segment = <BH header then x, y, z, yaw elements; found %s' % seq)
@@ -631,7 +682,23 @@ def quaternion_rules(ctx, rule='R3'):
     ng = [s_ for s_ in cq.node.body if isinstance(s_, ast.Assign) and norm(s_.targets[0]) == 'negate']
     ctx.inst(rule, cq, 'negate=sign-of-largest', len(ng) == 1 and canon_test(ng[0].value) == canon_test(ast.parse('quat_n[i_largest] < 0', mode='eval').body),
              'the whole quaternion is negated exactly when the dropped (largest) component is negative - the decoder rebuilds it as a positive root; found %s' % [norm(s_.value) for s_ in ng])
-    ctx.inst(rule, cq, 'sign-relative-to-largest', len(ns) == 1 and norm(ns[0].value) in ('int((quat_n[%s] < 0) ^ negate)' % norm(wl[0].target), 'int((0 > quat_n[%s]) ^ negate)' % norm(wl[0].target)), 'sign bit is relative to the sign of the largest component')
+    def xor_of_signs(v):
+        # int(A ^ B) or int(A != B) - the same thing for two truth values - of "this component is negative" and `negate`, in either order
+        if not (isinstance(v, ast.Call) and norm(v.func) == 'int' and len(v.args) == 1):
+            return False
+        e = v.args[0]
+        if isinstance(e, ast.BinOp) and isinstance(e.op, ast.BitXor):
+            a, b = e.left, e.right
+        elif isinstance(e, ast.Compare) and len(e.ops) == 1 and isinstance(e.ops[0], ast.NotEq):
+            a, b = e.left, e.comparators[0]
+        else:
+            return False
+        neg = canon_test(ast.parse('quat_n[%s] < 0' % norm(wl[0].target), mode='eval').body)
+        for x, y in ((a, b), (b, a)):
+            if norm(y) == 'negate' and isinstance(x, ast.Compare) and canon_test(x) == neg:
+                return True
+        return False
+    ctx.inst(rule, cq, 'sign-relative-to-largest', len(ns) == 1 and xor_of_signs(ns[0].value), 'sign bit is relative to the sign of the largest component')
 
 
 
